@@ -31,3 +31,10 @@ package maincmd
 //@   loop[C14] 2: invariant [one-length-per-rule] -1 <= rangeindex && ghost.int32sWritten == ghost.cmark + rangeindex + 1
 //@   at[C14] (*sender.Transfer).Do: assert [filter-list-sent-exactly-when-the-server-deletes] ghost.int32sWritten == ghost.cmark + ite(opts.delete_mode != 0, len(opts.filterRules) + 1, 0)
 //@   at[C14] (*receiver.Transfer).ReceiveFileList: assert [filter-list-always-sent] ghost.int32sWritten == ghost.cmark + len(opts.filterRules) + 1
+
+// ---------------------------------------------------------------- C13: a sending client applies its own rules
+// --exclude/--include/-f select what is sent in every arrangement: when the
+// client is the sender it hands the sender the list made from its own rules,
+// one rule per line and in order.
+//@ func maincmd.ClientRun
+//@   at[C13] (*sender.Transfer).Do: assert [sending-client-applies-its-own-rules] arg5 != nil && len(arg5.Filters) == len(opts.filterRules)
